@@ -133,6 +133,40 @@ pub fn init_regexp_prototype(interp: &mut Interpreter) {
     interp.register_method(&proto, "toString", regexp_to_string, 0);
 }
 
+/// The `source` of a regular expression: the pattern in a form that can stand between slashes
+/// (an unescaped `/` outside a character class is escaped, the empty pattern is `(?:)`)
+pub fn escape_regexp_source(pattern: &str) -> String {
+    if pattern.is_empty() {
+        return "(?:)".to_string();
+    }
+    let mut out = String::with_capacity(pattern.len());
+    let mut in_class = false;
+    let mut chars = pattern.chars();
+    while let Some(c) = chars.next() {
+        match c {
+            '\\' => {
+                out.push(c);
+                if let Some(next) = chars.next() {
+                    out.push(next);
+                }
+            }
+            '[' => {
+                in_class = true;
+                out.push(c);
+            }
+            ']' => {
+                in_class = false;
+                out.push(c);
+            }
+            '/' if !in_class => out.push_str("\\/"),
+            '\n' => out.push_str("\\n"),
+            '\r' => out.push_str("\\r"),
+            _ => out.push(c),
+        }
+    }
+    out
+}
+
 /// RegExp.prototype.toString: `/source/flags`
 pub fn regexp_to_string(
     interp: &mut Interpreter,
@@ -144,12 +178,7 @@ pub fn regexp_to_string(
     };
     let text = match &obj.borrow().exotic {
         ExoticObject::RegExp { pattern, flags, .. } => {
-            let source = if pattern.is_empty() {
-                "(?:)".to_string()
-            } else {
-                pattern.to_string()
-            };
-            format!("/{}/{}", source, flags)
+            format!("/{}/{}", escape_regexp_source(pattern), flags)
         }
         _ => return Err(JsError::type_error("this is not a RegExp")),
     };
@@ -218,16 +247,16 @@ pub fn regexp_constructor(
             compiled: Some(compiled),
         };
         obj.prototype = Some(interp.regexp_prototype.clone());
-        obj.set_property(source_key, JsValue::String(JsString::from(pattern)));
-        obj.set_property(flags_key, JsValue::String(JsString::from(flags.clone())));
-        obj.set_property(global_key, JsValue::Boolean(flags.contains('g')));
-        obj.set_property(ignore_case_key, JsValue::Boolean(flags.contains('i')));
-        obj.set_property(multiline_key, JsValue::Boolean(flags.contains('m')));
-        obj.set_property(dot_all_key, JsValue::Boolean(flags.contains('s')));
-        obj.set_property(unicode_key, JsValue::Boolean(flags.contains('u')));
-        obj.set_property(sticky_key, JsValue::Boolean(flags.contains('y')));
+        obj.define_builtin_property(source_key, JsValue::String(JsString::from(escape_regexp_source(&pattern))));
+        obj.define_builtin_property(flags_key, JsValue::String(JsString::from(flags.clone())));
+        obj.define_builtin_property(global_key, JsValue::Boolean(flags.contains('g')));
+        obj.define_builtin_property(ignore_case_key, JsValue::Boolean(flags.contains('i')));
+        obj.define_builtin_property(multiline_key, JsValue::Boolean(flags.contains('m')));
+        obj.define_builtin_property(dot_all_key, JsValue::Boolean(flags.contains('s')));
+        obj.define_builtin_property(unicode_key, JsValue::Boolean(flags.contains('u')));
+        obj.define_builtin_property(sticky_key, JsValue::Boolean(flags.contains('y')));
         // Initialize lastIndex to 0
-        obj.set_property(last_index_key, JsValue::Number(0.0));
+        obj.define_builtin_property(last_index_key, JsValue::Number(0.0));
     }
     Ok(Guarded::with_guard(JsValue::Object(regexp_obj), guard))
 }
